@@ -273,7 +273,7 @@ impl Scenario for C13 {
                 .ledger
                 .utxo
                 .values()
-                .filter(|s| s.block_id + plan.gp + 1 < next_id && s.amount > 0 && s.stype != SlipType::Bound)
+                .filter(|s| s.block_id + plan.gp + 1 <= next_id && s.amount > 0 && s.stype != SlipType::Bound)
                 .cloned()
                 .collect();
             if let Some(s) = old.first() {
